@@ -144,7 +144,7 @@ func ConnectWithConfig(c *ConnConfig) (*Conn, error) {
 			go func() {
 				conn.state.WaitUntil(ctx, connStatusClosed)
 				cancel()
-				conn.eventDispatcher.cond.Broadcast()
+				conn.eventDispatcher.wake()
 			}()
 			go func() {
 				conn.eventDispatcher.dispatchLoop(ctx)
@@ -397,7 +397,7 @@ func (c *Conn) OpenUpstream(ctx context.Context, sessionID string, opts ...Upstr
 			u.eventDispatcher.dispatchLoop(ctx)
 		}()
 		context.AfterFunc(ctx, func() {
-			u.eventDispatcher.cond.Broadcast()
+			u.eventDispatcher.wake()
 		})
 		var isResume bool
 		for {
@@ -559,7 +559,7 @@ func (c *Conn) OpenDownstream(ctx context.Context, filters []*message.Downstream
 			down.eventDispatcher.dispatchLoop(ctx)
 		}()
 		context.AfterFunc(ctx, func() {
-			down.eventDispatcher.cond.Broadcast()
+			down.eventDispatcher.wake()
 		})
 
 		for {
